@@ -577,6 +577,11 @@ class Interp:
             if gen:
                 return env['__yield']
             return r
+        except OutOfSubset as e:
+            if not getattr(e, 'where', None):
+                e.where = ' > '.join(f.fname for f in self.frames)
+                e.args = (e.args[0] + ' [in ' + e.where + ']',) + e.args[1:]
+            raise
         finally:
             self.depth -= 1
             self.frames.pop()
